@@ -1,9 +1,9 @@
 \* emission: one observation line per (th, bc, c, pitch) and one line per generator / changePitch step
-CONSTANTS R = 4  MaxLevel = 2  RectPitches <- RectP  SquarePitches <- SquareP
+CONSTANTS R = 4  MaxLevel = 2  RectPitches <- RectP  SquarePitches <- SquareP  AllSp = FALSE
 ACTION_CONSTRAINT Emit
 INVARIANT EmitState
 INIT Init
-NEXT Next
+NEXT NextE
 CONSTRAINT Bound
 VIEW View
 INVARIANT TypeOK
